@@ -148,6 +148,9 @@ inline void write_out_pair(BufOstream& os, const std::string& name,
   } else {
     if (name.size() + value.size() > 120) {
       os.put('\n');
+      // ';' in the first column would start a text field
+      if (value[0] == ';')
+        os.put(' ');
     } else {
       os.put(' ');
       if (name.size() < options.align_pairs)
@@ -193,6 +196,9 @@ inline void write_out_loop(BufOstream& os, const Loop& loop, WriteOptions option
   for (const std::string& val : loop.values) {
     bool text_field = is_text_field(val);
     os.put(need_new_line || text_field ? '\n' : ' ');
+    // ';' in the first column would start a text field
+    if (need_new_line && !text_field && val[0] == ';')
+      os.put(' ');
     need_new_line = text_field;
     if (text_field)
       write_text_field(os, val);
